@@ -89,7 +89,12 @@ func (e *Engine) verifyBlock(blk *Block) (u *Unit) {
 	// preconditions
 	entrySnap := snapOf(st)
 	for _, cl := range blk.Pre {
-		t := c.evalSpecFn(cl.Fn, f.argVals, st, entrySnap, f)[0]
+		pa := f.argVals
+		if cl.RecvOnly {
+			pa = pa[:1]
+			c.note("assumed", "object invariant assumed at method entry: "+cl.Text+" ("+blk.RecvType+")")
+		}
+		t := c.evalSpecFn(cl.Fn, pa, st, entrySnap, f)[0]
 		st.assume(c, t)
 	}
 	c.addObl(&Obligation{Name: name + "/cover-pre", Kind: "cover-pre", Fn: name, Pos: e.ld.Prog.Fset.Position(fn.Pos()), Text: "preconditions and type invariants are satisfiable", Reach: st.Reach, Goal: TTrue, Expect: "sat"})
@@ -107,7 +112,11 @@ func (e *Engine) verifyBlock(blk *Block) (u *Unit) {
 		}
 		all := append(append([][]Term{}, f.argVals...), resVals...)
 		for _, cl := range blk.Post {
-			t := c.evalSpecFn(cl.Fn, all, r.st, snapOf(f.entry), f)[0]
+			pa := all
+			if cl.RecvOnly {
+				pa = all[:1]
+			}
+			t := c.evalSpecFn(cl.Fn, pa, r.st, snapOf(f.entry), f)[0]
 			rpos := r.pos
 			if !rpos.IsValid() {
 				rpos = fn.Pos()
